@@ -18,7 +18,7 @@ ASSUMPTIONS = ["vf/parse_code.py grammar = 'ordinary arithmetic precedence' of t
                "undefined functions/derivatives/integrals/sums are compared through identical opaque smooth stand-ins on both sides",
                "tolerance 1e-10 relative (floats are printed with 15 digits)"]
 N = {"quick": dict(trees=4000, depth=4), "thorough": dict(trees=80000, depth=6)}
-MIN_REACH = {"quick": {"generated_decided": 3000, "catalogue_decided": 500, "modules_rendered": 500},
+MIN_REACH = {"quick": {"generated_decided": 3000, "catalogue_decided": 500, "modules_rendered": 500, "product_chains_decided": 300},
              "thorough": {"generated_decided": 60000, "catalogue_decided": 500}}
 SHARD_TIMEOUT = {"quick": 900, "thorough": 3300}
 
@@ -121,6 +121,68 @@ def work_kind(spec, rec, kind):
                           {"srepr": sympy.srepr(e)[:1500], "rendering": rendering[:400], "detail": detail[:300]})
         else:
             rec.inconc("source-form style: " + detail.split(":")[0][:50])
+    # (a'') hand-written product chains: left-nested unevaluated products mixing symbols, powers and several positive numeric
+    # literals (`a * 2 * 3`, `x / (4 * a * 2.5)`, `2 * 10**3 * b`) - the number-separator logic of the printers
+    from sympy import pi, sqrt, sin
+    syms = [symplyphysics.Symbol(n) for n in ["a", "b", "x_1", "T_lab"]]
+
+    def chain():
+        fs = []
+        for _ in range(r.randint(2, 5)):
+            k = r.random()
+            if k < 0.4:
+                fs.append(r.choice(syms))
+            elif k < 0.6:
+                fs.append(sympy.Integer(r.choice([2, 3, 4, 5, 10, 12, 100])))
+            elif k < 0.7:
+                fs.append(sympy.Float(r.choice([0.5, 2.405, 1e-3, 3.5e4])))
+            elif k < 0.78:
+                fs.append(sympy.Rational(r.choice([1, 3, 5]), r.choice([2, 4, 7])))
+            elif k < 0.88:
+                fs.append(sympy.Pow(r.choice(syms + [sympy.Integer(10), sympy.Integer(2)]), r.choice([2, 3, r.choice(syms)]), evaluate=False))
+            elif k < 0.93:
+                fs.append(pi)
+            else:
+                fs.append(r.choice([sqrt, sin])(r.choice(syms)))
+        if all(f.is_number for f in fs):
+            fs[r.randrange(len(fs))] = r.choice(syms)
+        out = fs[0]
+        for f in fs[1:]:
+            out = sympy.Mul(out, f, evaluate=False)
+        return out
+
+    for i in range(spec["trees"] // 8):
+        rec.checkpoint()
+        try:
+            with harness.Watchdog(20):
+                k = r.random()
+                c = chain()
+                if k < 0.4:
+                    e = c
+                elif k < 0.6:
+                    e = sympy.Mul(r.choice(syms), sympy.Pow(c, -1, evaluate=False), evaluate=False)
+                elif k < 0.75:
+                    e = sympy.Mul(c, sympy.Pow(chain(), -1, evaluate=False), evaluate=False)
+                elif k < 0.9:
+                    e = sympy.Add(c, chain(), evaluate=False)
+                else:
+                    e = sympy.Add(r.choice(syms), sympy.Mul(-1, c, evaluate=False), evaluate=False)
+                verdict, detail, rendering = render_compare(e, r)
+        except TimeoutError:
+            rec.inconc("watchdog on a product chain")
+            continue
+        except Exception:  # pylint: disable=broad-except
+            rec.add("generator_exceptions")
+            continue
+        rec.case(("chain", rendering), nontrivial=True)
+        if verdict == "ok":
+            rec.hit("product_chains_decided")
+        elif verdict == "viol":
+            rec.hit("product_chains_decided")
+            rec.violation(f"product-chain:{classify(detail, rendering)}", f"{kind} rendering {rendering[:200]!r} of the unevaluated {sympy.srepr(e)[:200]}: {detail[:200]}",
+                          {"srepr": sympy.srepr(e)[:1500], "rendering": rendering[:400], "detail": detail[:300]})
+        else:
+            rec.inconc("product chain: " + detail.split(":")[0][:50])
     # (b) the catalogue in documented source form
     for name in spec["modules"]:
         rec.checkpoint()
